@@ -1242,7 +1242,7 @@ func runBatchProp(prop, tier string, seed uint64, out *Out) {
 	sem := make(chan struct{}, 192)
 	var wg sync.WaitGroup
 	for i, c := range cases {
-		if out.only >= 0 && out.only != i {
+		if !out.WantAt(i) {
 			continue
 		}
 		wg.Add(1)
